@@ -117,6 +117,9 @@ pub fn faults(_thorough: bool) -> Report {
         ("build: store.toml <- EIO", "build", vec![("VERIF_DO", "pass")], Box::new(|r: &Path| symlink(EIO, r.join("layers/store.toml")).unwrap())),
         ("build: build.sbom.cdx.json -> /dev/full", "build", vec![("VERIF_DO", "pass"), ("VERIF_PARTS", "b0")], Box::new(|r: &Path| symlink(FULL, r.join("layers/build.sbom.cdx.json")).unwrap())),
         ("build: launch.sbom.syft.json -> /dev/full", "build", vec![("VERIF_DO", "pass"), ("VERIF_PARTS", "l2")], Box::new(|r: &Path| symlink(FULL, r.join("layers/launch.sbom.syft.json")).unwrap())),
+        ("build: FIRST of three build SBOMs -> /dev/full (the later ones are writable)", "build", vec![("VERIF_DO", "pass"), ("VERIF_PARTS", "b0,b1,b2")], Box::new(|r: &Path| symlink(FULL, r.join("layers/build.sbom.cdx.json")).unwrap())),
+        ("build: MIDDLE of three launch SBOMs -> /dev/full", "build", vec![("VERIF_DO", "pass"), ("VERIF_PARTS", "l0,l1,l2")], Box::new(|r: &Path| symlink(FULL, r.join("layers/launch.sbom.spdx.json")).unwrap())),
+        ("build: launch.toml -> /dev/full while store and SBOMs are writable", "build", vec![("VERIF_DO", "pass"), ("VERIF_PARTS", "launch,store,b0,l0")], Box::new(|r: &Path| symlink(FULL, r.join("layers/launch.toml")).unwrap())),
         ("build: buildpack plan <- EIO", "build", vec![("VERIF_DO", "pass")], Box::new(|r: &Path| { fs::remove_file(r.join("bp-plan.toml")).unwrap(); symlink(EIO, r.join("bp-plan.toml")).unwrap(); })),
         ("build: buildpack.toml <- EIO", "build", vec![("VERIF_DO", "pass")], Box::new(|r: &Path| { fs::remove_file(r.join("bp/buildpack.toml")).unwrap(); symlink(EIO, r.join("bp/buildpack.toml")).unwrap(); })),
     ];
